@@ -513,7 +513,13 @@ def gen_scenarios(seed: int, n: int, profile: str) -> list[dict[str, Any]]:
         if profile == 'subs':        # handler 'a' registers two sub-handlers whenever it runs
             if 'a' not in hs:
                 hs['a'] = hdl(['create', 'update'], [], backoff=1); sc['handlers'] = hs; sc['order'] = ['a'] + [h for h in sc['order'] if h != 'a']
-            hs['a']['script'] = [x for x in hs['a']['script'] if x == 'ok'] if rnd.random() < 0.7 else hs['a']['script']
+            r_ = rnd.random()
+            if r_ < 0.55:
+                hs['a']['script'] = [x for x in hs['a']['script'] if x == 'ok']
+            elif r_ < 0.8:       # the parent gives up for good after rounds in which its sub-handlers were still pending
+                hs['a']['script'] = ['ok'] * rnd.randint(1, 2) + ['perm']
+            if rnd.random() < 0.25:
+                hs['a']['retries'] = rnd.choice([2, 3])
             sub_script = lambda: rnd.choice([['ok'], ['ok'], [('temp', rnd.choice([1, 2, 3])), 'ok'], [('temp', 1), ('temp', 2), 'ok'], ['perm'], [('temp', 2), 'perm']])
             sc['subs'] = {'a': {'a/x': sub_script() + sub_script(), 'a/y': sub_script() + sub_script()}}
             sc['sync'] = ''; sc['drs'] = False
